@@ -166,3 +166,52 @@ Corollary sum_pair_is_composition_Z (a : arr Z) i j :
   forall k, length k + 2 = length (shape Z a) ->
     dat Z (reduce_arr Z zsum [i; j] a) k = dat Z (reduce_arr Z zsum [i] (reduce_arr Z zsum [j] a)) k.
 Proof. intros Hij Hj. exact (proj2 (reduce_pair_is_composition Z zsum zsum_concat a i j Hij Hj)). Qed.
+
+(* ---- the reducers the correspondence case files actually use: rational sum and product ---- *)
+From Coq Require Import QArith.
+From EFModel Require Import C12_FeQ.
+
+Lemma Qplus_assoc_leibniz (x y z : Q) : Qplus x (Qplus y z) = Qplus (Qplus x y) z.
+Proof.
+  destruct x as [xn xd], y as [yn yd], z as [zn zd]. unfold Qplus. simpl.
+  rewrite !Pos2Z.inj_mul, Pos.mul_assoc. f_equal. ring.
+Qed.
+Lemma Qplus_0_l_leibniz (x : Q) : Qplus 0 x = x.
+Proof. destruct x as [xn xd]. unfold Qplus. simpl. f_equal. destruct xn; reflexivity || (simpl; now rewrite Pos.mul_1_r). Qed.
+
+Lemma Qmult_assoc_leibniz (x y z : Q) : Qmult x (Qmult y z) = Qmult (Qmult x y) z.
+Proof.
+  destruct x as [xn xd], y as [yn yd], z as [zn zd]. unfold Qmult. simpl.
+  now rewrite Z.mul_assoc, Pos.mul_assoc.
+Qed.
+Lemma Qmult_1_l_leibniz (x : Q) : Qmult 1 x = x.
+Proof. destruct x as [xn xd]. unfold Qmult. simpl. f_equal. now destruct xn. Qed.
+
+Lemma qred_sum_app l1 l2 : qred 0%nat (l1 ++ l2) = Qplus (qred 0%nat l1) (qred 0%nat l2).
+Proof.
+  induction l1 as [|x l1 IH]; simpl in *; [now rewrite Qplus_0_l_leibniz|].
+  now rewrite IH, Qplus_assoc_leibniz.
+Qed.
+Lemma qred_prod_app l1 l2 : qred 1%nat (l1 ++ l2) = Qmult (qred 1%nat l1) (qred 1%nat l2).
+Proof.
+  induction l1 as [|x l1 IH]; simpl in *; [now rewrite Qmult_1_l_leibniz|].
+  now rewrite IH, Qmult_assoc_leibniz.
+Qed.
+
+Lemma qred_sum_concat (ls : list (list Q)) : qred 0%nat (concat ls) = qred 0%nat (map (qred 0%nat) ls).
+Proof. induction ls as [|l ls IH]; [reflexivity|]. cbn [concat map]. rewrite qred_sum_app, IH. reflexivity. Qed.
+Lemma qred_prod_concat (ls : list (list Q)) : qred 1%nat (concat ls) = qred 1%nat (map (qred 1%nat) ls).
+Proof. induction ls as [|l ls IH]; [reflexivity|]. cbn [concat map]. rewrite qred_prod_app, IH. reflexivity. Qed.
+
+(* np.sum / np.prod over a pair of axes, exactly as evaluated by the model in the case files
+   (Leibniz equality of the unreduced rationals, not just Qeq) *)
+Corollary qsum_qprod_pair_is_composition (a : arr Q) (i j : nat) :
+  (i < j)%nat -> (j < length (shape Q a))%nat ->
+  forall k, (length k + 2 = length (shape Q a))%nat ->
+    dat Q (reduce_arr Q (qred 0%nat) [i; j] a) k = dat Q (reduce_arr Q (qred 0%nat) [i] (reduce_arr Q (qred 0%nat) [j] a)) k /\
+    dat Q (reduce_arr Q (qred 1%nat) [i; j] a) k = dat Q (reduce_arr Q (qred 1%nat) [i] (reduce_arr Q (qred 1%nat) [j] a)) k.
+Proof.
+  intros Hij Hj k Hk. split.
+  - exact (proj2 (reduce_pair_is_composition Q (qred 0%nat) qred_sum_concat a i j Hij Hj) k Hk).
+  - exact (proj2 (reduce_pair_is_composition Q (qred 1%nat) qred_prod_concat a i j Hij Hj) k Hk).
+Qed.
